@@ -54,6 +54,9 @@ CLAIMED["C13"] = dict(engine="metastore", technique="TLA+ model of the key table
 CLAIMED["C07"] = dict(engine="tamper", technique="symbolic (ideal-AEAD) TLA+ model Tamper.tla enumerated by TLC; every case made concrete and executed on real Decrypt/Load; outcomes validated by TLC",
     text="Tamper.tla assembles a record field by field from genuine records of two key generations and another partition, damaged and absent values, and corrupts the key rows of its chain; TLC enumerates every combination with the ideal-AEAD outcome and checks that the only success is the payload bound to that Data; each case is made concrete (bit flips, truncations, real records and rows) and run through Session.Decrypt and Session.Load in a fresh cache-less factory; TLC validates: never a panic, never other bytes, outcome as in the model; plus every single-bit flip and truncation length of Data and of the encrypted key.",
     note="AES-GCM authenticity is assumed (ideal AEAD); corrupted rows live in the fake metastore; one service/product; bit flips / truncations beyond the exhaustive single-record sweep are seeded samples", ref="5/C07, 4.6")
+CLAIMED["C18"] = dict(engine="wire", level="other", technique="TLA+ specification of the documented layout (WireFormat.tla) enumerates the structural cases; differential against a documentation-derived reference codec in both directions over five channels; TLC validates every recorded exchange",
+    text="WireFormat.tla states the documented layout (JSON shapes and presence rules, ct||tag(16)||nonce(12), key-id grammar, key hierarchy) and TLC enumerates payload lengths, ids with underscores, region suffix, revoked flags, timestamp classes x channel {json, sql row, DynamoDB v1/v2 item, gRPC mapping} x direction; what the real SDK emits is parsed and decrypted by a reference codec written from the documentation with the standard library only, and what the reference codec writes is decrypted by the real SDK; TLC validates each exchange against the layout rules and names the violated rule.",
+    note="level 'other': TLA+ contributes the structure and the enumeration, the byte arithmetic (base64, AES-GCM) is done by the Go reference codec; 'cross-language' means documentation-derived (Java/C# SDKs unavailable offline); StaticKMS only; the gRPC channel uses a loopback listener", ref="5/C18, 4.6")
 PENDING = {}
 
 def main():
